@@ -129,6 +129,9 @@ def sec_arrays(sec, typ=None):
     return r
 
 
+IGNORE_KNOWN = set(k for k in os.environ.get("VERIF_C12_IGNORE_KNOWN", "").split(",") if k)
+
+
 # --------------------------------------------------------------------------- reference interpreter
 class Invalid(Exception):
     """the operation is outside the domain the generator is allowed to produce"""
@@ -139,7 +142,7 @@ def ulp(x):
 
 
 class Arr:
-    __slots__ = ("name", "typ", "val", "err", "st", "exists", "taint", "gexact", "opaque", "gst")
+    __slots__ = ("name", "typ", "val", "err", "st", "exists", "taint", "gexact", "opaque", "gst", "gdiff")
 
     def __init__(self, name, n):
         a = ARR[name]
@@ -159,11 +162,19 @@ class Arr:
         # do not update it (known defect regop-global-status-stale); the library then refuses
         # ADD/MULTIPLY/MIN/MAX, COPY and OPERATE that read such cells, so those are not generated.
         self.gst = list(self.st) if a["glob"] else None
+        # per cell: key of the known defect because of which the library's GLOBAL copy may hold another
+        # value than the active-cell data (None: get_global must repeat get in that cell)
+        self.gdiff = [None] * n if a["glob"] else None
         self.exists = False      # has been the target of an operation (the library requires this
         #                          for ADD/MULTIPLY/MINVALUE/MAXVALUE on non-multiplier arrays)
         self.taint = set()       # keys of known library defects that may have influenced this array
         self.gexact = True       # False: inactive cells of a global-storage array are not asserted
         self.opaque = False      # True: content not modelled (top-layer distribution); only oracle (ii) applies
+
+
+def add_taint(a, key):
+    if key not in IGNORE_KNOWN:      # a defect that is treated as fixed influences nothing
+        a.taint.add(key)
 
 
 class Model:
@@ -197,7 +208,7 @@ class Model:
             # of the PROPS section see OPERNUM as modified later in REGIONS: known defect
             for k in self.props_after_opernum:
                 if k in self.A:
-                    self.A[k].taint.add("regions-before-props")
+                    add_taint(self.A[k], "regions-before-props")
         return a
 
     def cells(self, box):
@@ -245,6 +256,8 @@ class Model:
                     v = vg * ve
                     g.err[c] = g.err[c] * abs(ve) + e.err[c] * abs(vg) + g.err[c] * e.err[c] + ulp(v)
                     g.val[c] = v
+                    if g.gdiff is not None:
+                        g.gdiff[c] = g.gdiff[c] or e.gdiff[c]
                 g.taint |= e.taint
                 g.exists = True
         self.sec = None
@@ -295,6 +308,9 @@ class Model:
                 raise Invalid("int range")
         for v, c in zip(vals, cs):
             if v is None:
+                if a.gst is not None and a.gst[c] == 0 and a.st[c] != 0:
+                    # stale 'uninitialised' status in the global copy: the defaulted entry overwrites it
+                    a.gdiff[c] = "regop-global-status-stale"
                 continue
             if a.typ == "i":
                 a.val[c] = v
@@ -303,6 +319,7 @@ class Model:
             a.st[c] = 2
             if a.gst is not None:
                 a.gst[c] = 2
+                a.gdiff[c] = None
         a.opaque = becomes_opaque
         a.exists = True
 
@@ -358,6 +375,7 @@ class Model:
                 a.val[c], a.err[c], a.st[c] = s, es, 2
                 if a.gst is not None and not self.in_region_op:
                     a.gst[c] = 2
+                    a.gdiff[c] = None
                 continue
             if x is None:
                 continue                                     # unknown default stays unknown
@@ -388,7 +406,7 @@ class Model:
             raise Invalid("positive array")
         self._apply_scalar(a, name, kind, cs, v)
         if kind == "ADD" and ARR[name]["dim"] == "Temperature" and cs:
-            a.taint.add("add-temperature-offset")
+            add_taint(a, "add-temperature-offset")
         a.exists = True
 
     def _check_copy(self, src, dst, cs, region):
@@ -424,6 +442,7 @@ class Model:
             d.val[c], d.err[c], d.st[c] = s.val[c], s.err[c], s.st[c]
             if d.gst is not None and not region:
                 d.gst[c] = s.gst[c]
+                d.gdiff[c] = s.gdiff[c]
         d.taint |= s.taint
         d.gexact = d.gexact and s.gexact     # inactive cells that the source's region operations did not reach
         d.exists = True
@@ -548,6 +567,9 @@ class Model:
             d.val[c], d.err[c], d.st[c] = y, e, s.st[c]
             if d.gst is not None and not region:
                 d.gst[c] = s.gst[c]
+                d.gdiff[c] = s.gdiff[c] or (d.gdiff[c] if fn in ("MULTIPLY", "POLY") else None)
+            elif d.gdiff is not None:
+                d.gdiff[c] = None            # OPERATER refreshes the global value from the active-cell data
         d.taint |= s.taint
         d.gexact = d.gexact and s.gexact     # inactive cells that the source's region operations did not reach
         d.exists = True
@@ -595,12 +617,15 @@ class Model:
         finally:
             self.in_region_op = False
         a.taint |= r.taint
+        if a.gdiff is not None:
+            for c in cs:
+                a.gdiff[c] = None            # the global value is refreshed from the active-cell data
         if cs:
             a.gexact = False
             if a.typ == "i":
-                a.taint.add("regop-int-ignored")
+                add_taint(a, "regop-int-ignored")
             if k == "ADD" and ARR[name]["dim"] == "Temperature":
-                a.taint.add("add-temperature-offset")
+                add_taint(a, "add-temperature-offset")
         if cs and a.typ != "i":
             a.exists = True      # (the library ignores region operations on int arrays: not created)
 
@@ -614,8 +639,9 @@ class Model:
         d.taint |= r.taint
         if cs:
             d.gexact = False
-            if ARR[dst]["glob"]:
-                d.taint.add("copyreg-global-stale")
+            if d.gdiff is not None:
+                for c in cs:
+                    d.gdiff[c] = "copyreg-global-stale"     # global copy not refreshed at all
 
     def op_operater(self, dst, rid, fn, src, a, b, regname):
         regname = regname or "OPERNUM"
@@ -780,9 +806,6 @@ def render(case, all_active=False):
 # VERIF_C12_IGNORE_KNOWN=key1,key2 (read only here): treat these known_findings.jsonl lines as absent,
 # i.e. a violation with that key is reported strictly and its trigger is generated at full rate.
 # Used to verify a fix of the corresponding defect.
-IGNORE_KNOWN = set(k for k in os.environ.get("VERIF_C12_IGNORE_KNOWN", "").split(",") if k)
-
-
 def gated(kw, name, dst_glob=False):
     info = ARR[name]
     key = None
@@ -1296,7 +1319,7 @@ class C12(Check):
         for a in m.A.values():
             if a.opaque:
                 ctx.label("oracle-ii-only:top-layer-distribution")
-            for t in a.taint:
+            for t in a.taint | (set(k for k in a.gdiff if k) if a.gdiff else set()):
                 ctx.label("touches-known-defect:" + t)
         ctx.label("arrays-compared-with-interpreter", sum(1 for nm in ARR if o1[nm]["data"] is not None))
         ctx.label("arrays-compared-metamorphic", sum(1 for nm in ARR if o1[nm]["data"] is not None and o2[nm]["data"] is not None))
@@ -1304,7 +1327,9 @@ class C12(Check):
         def report(name, rule, detail, key=None):
             a = m.A.get(name)
             taint = sorted(a.taint) if a is not None else []
-            key = taint[0] if taint else key
+            key = key or (taint[0] if taint else None)
+            if key in IGNORE_KNOWN:
+                key = None
             v = V(rule, dict(detail, array=name), key)
             if key:
                 keyed.append(v)
@@ -1359,17 +1384,18 @@ class C12(Check):
                 if gl is not None:
                     if len(gl) != n:
                         return V("get_global size", {"array": name, "size": len(gl)})
+                    deferred = set()
                     for ai, g in enumerate(amap):
                         if not same(gl[g], lib["data"][ai]):
-                            # after a region operation the global copy keeps stale statuses (known defect,
-                            # update_global_from_local), a later keyword with defaulted entries then
-                            # overwrites the global value
+                            # cells where a known defect explains the difference carry its key (Arr.gdiff)
+                            k = a.gdiff[g] if (a is not None and a.gdiff is not None) else None
+                            if k in deferred:
+                                continue
                             v = report(name, "get_global differs from get in an active cell",
-                                       {"global_index": g, "get_global": gl[g], "get": lib["data"][ai]},
-                                       "regop-global-status-stale" if (info["glob"] and a is not None and not a.gexact) else None)
+                                       {"global_index": g, "get_global": gl[g], "get": lib["data"][ai]}, k)
                             if v:
                                 return v
-                            break
+                            deferred.add(k)
                     if info["glob"] and (a is None or a.gexact):
                         for g in range(n):
                             if act[g] or not st_[g] or val[g] is None:
@@ -1385,7 +1411,7 @@ class C12(Check):
                     if v:
                         return v
             # ---- (ii) metamorphic: all-active run, same cells, bit for bit
-            mkey = "top-distribute-inactive-source" if opaque else None
+            mkey = "top-distribute-inactive-source" if opaque and "top-distribute-inactive-source" not in IGNORE_KNOWN else None
             if lib["data"] is not None and lib2["data"] is not None:
                 for ai, g in enumerate(amap):
                     if not same(lib["data"][ai], lib2["data"][g]):
